@@ -54,6 +54,11 @@ def isScalar (c : Nat) : Prop := c < 0xD800 ∨ (0xDFFF < c ∧ c ≤ 0x10FFFF)
 /-- number of bytes of the UTF-8 form of a scalar value -/
 def encLen (c : Nat) : Nat := if c < 0x80 then 1 else if c < 0x800 then 2 else if c < 0x10000 then 3 else 4
 
+/-- a byte string is a concatenation of well-formed sequences none of which is NUL
+(what `utf8_validate_string` is to accept) -/
+def WFString (s : List B) : Prop :=
+  ∃ cs : List (List B), s = cs.flatten ∧ ∀ c ∈ cs, WF c ∧ c ≠ [0#8]
+
 /-- the first `n` bytes seen through an accessor -/
 def window (rd : Nat → B) (n : Nat) : List B := (List.range n).map rd
 
